@@ -5,7 +5,18 @@
      suspend      consumes the token if set (returns at once: a spurious return when the token
                   was set by a resume issued earlier in the same phase), otherwise blocks
      phase end    (yield, termination) clears the token
-   Primitives that wait in a loop are correct under this contract; single-shot suspends are not. *)
+   Primitives that wait in a loop are correct under this contract; single-shot suspends are not.
+
+   Measured on the real runtime (C06 trace harness, C02 model witness
+   C02_wakeup_crosses_phases_refuted): the token is NOT reliably cleared at a phase end — the
+   set_active_state retry helper gives up only when it finds the target *active with a different
+   tag*; a delayed helper that finds the target *suspended* in a later phase still wakes it.  So
+   [a_phase_end] is an idealisation of the common case only.  Every model built on this file
+   therefore ALSO contains an environment operation "a stale resume arrives now" that any thread
+   may issue at any time (Mutex.OSpur, CondVar spurious ops, Semaphore.StaleResume, Join.AResume),
+   and all theorems quantify over programs containing it: the contract actually assumed is
+   "suspend may return spuriously at any time; a resume issued after the waiter registered is
+   never lost". *)
 From Coq Require Import Bool.
 
 Record agent_state := { tok : bool; blocked : bool }.
